@@ -9,13 +9,16 @@ from concurrent.futures import ProcessPoolExecutor
 
 
 def _z3_check(args):
-    text, timeout_ms, seed = args
+    text, timeout_ms, seed, mbqi = args
     import z3
     t0 = time.time()
     try:
         s = z3.Solver()
         s.set("timeout", timeout_ms)
         s.set("random_seed", seed)
+        if not mbqi:
+            s.set("auto_config", False)
+            s.set("mbqi", False)
         s.from_string(text)
         r = str(s.check())
         reason = s.reason_unknown() if r == "unknown" else ""
@@ -59,12 +62,24 @@ def discharge(goals, timeout_s=20, workers=None, use_cvc5=True, both=False, seed
     if not todo:
         return stats
     with ProcessPoolExecutor(max_workers=workers) as ex:
-        rs = list(ex.map(_z3_check, [(t, int(timeout_s * 1000), seed) for t in texts], chunksize=1))
+        # portfolio: z3 with E-matching only (fast and stable on the quantified
+        # heap goals), then z3 default (MBQI) for what is left
+        rs = list(ex.map(_z3_check, [(t, int(timeout_s * 1000), seed, False) for t in texts], chunksize=1))
         for g, (r, reason, dt) in zip(todo, rs):
             g.status, g.solver, g.time, g.reason = r, "z3", dt, reason
             stats["z3_time"] += dt
             if r == "unsat":
                 stats["z3"] += 1
+        left = [g for g in todo if g.status != "unsat"]
+        rs = list(ex.map(_z3_check, [(g.to_smt2(), int(timeout_s * 1000), seed, True) for g in left], chunksize=1))
+        for g, (r, reason, dt) in zip(left, rs):
+            stats["z3_time"] += dt
+            g.time += dt
+            if r == "unsat":
+                g.status, g.solver = r, "z3-mbqi"
+                stats["z3"] += 1
+            elif r == "sat":
+                g.status, g.reason = "sat", "model found by z3 (mbqi)"
         if use_cvc5:
             open_ = [g for g in todo if g.status != "unsat"] if not both else todo
             rs = list(ex.map(_cvc5_check, [(g.to_smt2(), int(timeout_s * 1000)) for g in open_], chunksize=1))
